@@ -296,6 +296,14 @@ func (c *Cmt) commitOn(n *Node, b *DecidedBlock, resp *abci.ResponseFinalizeBloc
 			c.w.fault("disk/write-error")
 			return false
 		}
+		if msg := fmt.Sprint(out.Panic); strings.Contains(msg, "was already saved to different hash") {
+			// the store holds a (partially written) version of this height from before a crash, and
+			// re-executing the same block on the same committed state produced other content
+			c.w.violate("C07", "re-execution-after-restart-differs", "commit-refused", "height %d node %d: the block was re-executed after a torn commit and produced different state: %s", b.Height, n.ID, msg)
+			n.crash("store refuses the re-executed block")
+			c.Halted = "a replica's store refuses the re-executed block"
+			return false
+		}
 		panic(harnessError{fmt.Sprintf("Commit failed on node %d: %v %v\n%s", n.ID, out.Panic, err, out.Stack)})
 	}
 	n.Height = b.Height
